@@ -225,6 +225,21 @@ reg(
     "schedule enumeration with harness-gated workers (exhaustive for small task counts) + Hypothesis for larger ones",
 )
 
+reg(
+    "C03",
+    "One Hypothesis stream per algorithm so that every run covers all of them: 17 single-level optimisers, 3 composites "
+    "(documented per-level budgets) and 30 DOE algorithms exposed by the factories, each on problems drawn inside its declared "
+    "capabilities (constraint kinds, linear-only, integer handling, gradient need), budgets 1-25, NaN-producing / raising "
+    "functions, normalisation and database settings, second executions with and without counter reset. Counting wrappers around "
+    "the original callables record the physical point of every call: database growth <= N, <= N distinct new points (derivative "
+    "probes clustered), counter == new entries, execute returns a result (never raises) built from the history for max_iter, "
+    "tolerance, time-limit (max_time=1e-9) and NaN stops; DOE: keys == de-duplicated samples in generation order, each evaluated "
+    "once, failing samples skipped. 4 open findings excluded by class.",
+    "Algorithms whose wrapper cannot run in this sandbox are skipped and named in the evidence (skipped_algorithms). MNBI is "
+    "excluded (ASSUMPTIONS). A 30 s SIGALRM watchdog turns a stalled third-party optimiser into 'inconclusive', never a violation.",
+    "property-based testing (Hypothesis, one stream per algorithm) with call-counting oracles on generated problems",
+)
+
 NOT_YET: dict[str, str] = {}
 
 
